@@ -275,7 +275,42 @@ def unit_bounded_positions(U):
                      "%d attribute texts (comma followed by blank, multi-values, GTF) x checklines in {1, 3}, checklines + 4 lines each" % len(texts), cases, fails, distinct=cases)
 
 
-UNITS = [("bounded.positions", unit_bounded_positions), ("columns", unit_columns), ("step_row", unit_step_row), ("order", unit_order), ("returner", unit_returner), ("unicode", unit_unicode)]
+def unit_bounded_empty_elements(U):
+    """Bounded: comma lists with EMPTY elements (a doubled, leading or trailing comma) are stored as written: the stored
+    feature has exactly the elements of the line and prints the line byte for byte, from a file database, a reopened one, a
+    memory database and a re-import of the printed lines (GFF3 text; also as the only multi-valued line of the file)"""
+    import tempfile, os, shutil
+    fails, cases = [], 0
+    attrs = ["ID=g1;Alias=a1,,a3", "ID=g2;Dbxref=X:1,X:2,", "ID=g3;Ontology_term=,GO:1", "ID=g4;Note=,", "ID=g5;Alias=a,b;Dbxref=,,", "ID=g6;Name=plain"]
+    exp_vals = {"g1": ("Alias", ["a1", "", "a3"]), "g2": ("Dbxref", ["X:1", "X:2", ""]), "g3": ("Ontology_term", ["", "GO:1"]), "g4": ("Note", ["", ""]), "g5": ("Dbxref", ["", "", ""]), "g6": ("Name", ["plain"])}
+    for picks in (range(6), (0, 5), (1, 5), (2,), (3, 4)):
+        lines = ["c\ts\tgene\t%d\t%d\t.\t+\t.\t%s" % (10 * i + 1, 10 * i + 5, attrs[i]) for i in picks]
+        text = "\n".join(lines) + "\n"
+        d = tempfile.mkdtemp()
+        try:
+            for route in ("file", "reopened", "memory", "re-import of the printed lines"):
+                cases += 1
+                try:
+                    if route == "memory":
+                        db = gffutils.create_db(text, ":memory:", from_string=True)
+                    else:
+                        db = gffutils.create_db(text, os.path.join(d, "e%d.db" % cases), from_string=True)
+                        if route == "reopened":
+                            db = gffutils.FeatureDB(os.path.join(d, "e%d.db" % cases))
+                        elif route != "file":
+                            db = gffutils.create_db("\n".join(str(f) for f in db.all_features(order_by="start")) + "\n", ":memory:", from_string=True)
+                    got = [str(f) for f in db.all_features(order_by="start")]
+                    vals = {f.id: list(f.attributes[exp_vals[f.id][0]]) for f in db.all_features()}
+                    want = {"g%d" % (i + 1): exp_vals["g%d" % (i + 1)][1] for i in picks}
+                    if got != lines or vals != want:
+                        fails.append({"case": {"text": text, "route": route}, "expected": {"lines": lines, "values": want}, "observed": {"lines": got, "values": vals}})
+                except Exception as e:
+                    fails.append({"case": {"text": text, "route": route}, "expected": "imported", "observed": repr(e)})
+        finally:
+            shutil.rmtree(d, ignore_errors=True)
+    U.bounded_result("C01.bounded.empty_list_elements", "comma lists with empty elements are stored and printed as written", "5 files of 1-6 GFF3 lines x file / reopened / memory / re-import", cases, fails)
+
+UNITS = [("bounded.empty_elements", unit_bounded_empty_elements), ("bounded.positions", unit_bounded_positions), ("columns", unit_columns), ("step_row", unit_step_row), ("order", unit_order), ("returner", unit_returner), ("unicode", unit_unicode)]
 try:
     from standins import C01 as _S
     UNITS = UNITS + list(_S.UNITS)
